@@ -96,8 +96,8 @@ def cases(tier, rng):
             for lens in ([[1, 2], [2, 5], [5, 1]] if big else [rng.choice([[1, 2], [2, 5], [5, 1]])]):
                 ents, header = c01.make_entries(fmt, n, lens, rng)
                 for kind in kinds:
-                    if kind.startswith("tok:") and not big and rng.random() < 0.6:
-                        continue
+                    if kind.startswith("tok:") and ((not big and rng.random() < 0.6) or (big and n not in (2, 4))):
+                        continue        # the many non-numeric texts: every text everywhere, but fewer file sizes
                     for i in range(n):
                         if kind == "ncols_shift" and i == n - 1:
                             continue
@@ -109,7 +109,10 @@ def cases(tier, rng):
                         for e in bad:
                             acc += len(e)
                             bounds.append(acc)
-                        if big:
+                        if big and kind.startswith("tok:"):
+                            cand = sorted(set([1, 2, 3, L, L + 1, L + 2] + bounds + [b + 1 for b in bounds] + [max(1, b - 1) for b in bounds]))
+                            ks = rng.sample(cand, min(len(cand), 8))
+                        elif big:
                             ks = list(range(1, L + 3)) if (L < 70 and n < 6) else sorted(set(list(range(1, 20)) + bounds + [b + 1 for b in bounds] + [L + 1]))
                         else:
                             cand = sorted(set([1, 2, 3, L, L + 1, L + 2] + bounds + [b + 1 for b in bounds] + [max(1, b - 1) for b in bounds]))
